@@ -158,6 +158,33 @@ theorem inner_payload_inside (inner_len cipher : Int) (inner : Int → Int)
   repeat' (first | with_reducible apply ite_intro | intro _)
   kleaves
 
+/-! ## `zip_decompress_length` (zip.c): the 8-byte header of a compressed inner layer -/
+
+/-- **The compression header is read only when it is there**: for every non-negative length (what `dec_unpack_outer` hands on,
+    see `outer_result_tiles`) the two 4-byte reads of `zip_decompress_length` lie inside the block. -/
+theorem zip_header_reads_in_bounds (type len : Int) (src : Int → Int) (h : 0 ≤ len ∧ len ≤ 2147483647) :
+    readsWithin len (zip_decompress_length type len src).events := by
+  unfold zip_decompress_length
+  simp only [apply_ite KOut.events, apply_ite (readsWithin len)]
+  repeat' (first | with_reducible apply ite_intro | intro _)
+  kleaves
+
+/-- **What it answers**: -1 for a block shorter than the header or without the magic number, otherwise the stored original
+    length read big-endian at offset 4 and converted to `int` (so a stored length ≥ 2^31 comes out negative and is refused by
+    `dec_decompress_bad_length_refused`). -/
+theorem zip_length_spec (type len : Int) (src : Int → Int) (h : 0 ≤ len ∧ len ≤ 2147483647) :
+    (zip_decompress_length type len src).ret =
+      (if len < 8 ∨ rdBE32 src 0 ≠ ZIP_MAGIC then -1 else wrapS32 (rdBE32 src 4)) := by
+  unfold zip_decompress_length ZIP_MAGIC wrapU64
+  by_cases h1 : len < 8
+  · have : len % 18446744073709551616 < 8 := by omega
+    simp [h1, this]
+  · have : ¬ len % 18446744073709551616 < 8 := by omega
+    by_cases h2 : rdBE32 src 0 = 3402287818 <;> simp [h1, this, h2]
+
+/-- (why the non-negativity matters: `len < sizeof (zip_meta_t)` is an unsigned comparison in C - a negative `int` would pass it) -/
+example : (zip_decompress_length 0 (-1) (fun _ => 0)).events = [("rd", [0, 4])] := by decide
+
 /-! ## the probed tables of the real primitives satisfy the size hypotheses -/
 
 theorem getD_le_of_all {l : List Int} {b d : Int} (hl : ∀ v ∈ l, v ≤ b) (hd : d ≤ b) (n : Nat) : l.getD n d ≤ b := by
